@@ -37,7 +37,7 @@ EXPORT = [
         (("as:Rect", "0", "lower_left"), [(2, ("inner",))], []), (("as:Poly", "0", "vertices"), [(2, ("inner",))], []), (("as:Path", "0", "points"), [(2, ("inner",))], []),
     ]),
     ("cell", [EXP, r"^&data::Cell$"], r"Result<layout21protos::Cell,", [
-        (("name",), [(2, ("name",))], []), (("layout",), [(2, ("layout",))], []), (("abstract",), [(2, ("abs",))], [])]),
+        (("name",), [(2, ("name",))], [(2, ("layout", "name")), (2, ("abs", "name"))]), (("layout",), [(2, ("layout",))], []), (("abstract",), [(2, ("abs",))], [])]),
     ("layout", [EXP, r"^&data::Layout$"], r"Result<layout21protos::Layout,", [
         (("name",), [(2, ("name",))], []), (("instances",), [(2, ("insts",))], []), (("annotations",), [(2, ("annotations",))], []),
         (("shapes",), [(2, ("elems",))], []), (("shapes", "[*]", "layer", "number"), [(2, ("elems", "layer"))], []), (("shapes", "[*]", "layer", "purpose"), [(2, ("elems", "purpose"))], [])]),
@@ -69,7 +69,7 @@ IMPORT = [
     ("annotation", [IMP, r"^&layout21protos::TextElement$"], r"Result<data::TextElement,", [
         (("string",), [(2, ("string",))], []), (("loc",), [(2, ("loc",))], [])]),
     ("cell", [IMP, r"^&layout21protos::Cell$"], r"Result<data::Cell,", [
-        (("name",), [(2, ("name",))], []), (("layout",), [(2, ("layout",))], []), (("abs",), [(2, ("abstract",))], [])]),
+        (("name",), [(2, ("name",))], [(2, ("layout", "name")), (2, ("abstract", "name"))]), (("layout",), [(2, ("layout",))], []), (("abs",), [(2, ("abstract",))], [])]),
     ("layout", [IMP, r"^&layout21protos::Layout$"], r"Result<data::Layout,", [
         (("name",), [(2, ("name",))], []), (("insts",), [(2, ("instances",))], []), (("annotations",), [(2, ("annotations",))], []), (("elems",), [(2, ("shapes",))], [])]),
     ("layer_shapes", [IMP, r"^&layout21protos::LayerShapes$"], r"Result<std::vec::Vec<data::Element>,", [
@@ -142,6 +142,8 @@ def run(ctx):
                     ctx.violation("R14.2", "export_units/%s" % v, "exporting a library in Units::%s panics (unimplemented!) instead of returning an error" % v, b.site(panics[0]), "export_units/%s" % v)
                 else:
                     ctx.ok("R14.2", "export_units/%s" % v, "value or error")
+    from rules import boolxfer as bx
+    bx.run_table(ctx, "R14.1b", bx.RAW_PROTO)
     # ---- R14.4 export panic freedom
     roots = pr.roots_by_short(F, ("proto::ProtoExporter::export",))
     pr.rule_panic_free(ctx, "R14.4", roots, "Library::to_proto", scope_prefixes=["layout21raw::"], floor=1)
